@@ -45,6 +45,10 @@ pub fn h128(words: &[u64]) -> u128 {
     ((a as u128) << 64) | b as u128
 }
 
+/// Process-wide record of the first violations per key, so that findings made by completed
+/// explorations survive when the watchdog has to end the process (a planner call that never returns).
+pub static GLOBAL_VIOLATIONS: std::sync::Mutex<Vec<Violation>> = std::sync::Mutex::new(Vec::new());
+
 impl Report {
     pub fn new() -> Self {
         Default::default()
@@ -65,7 +69,13 @@ impl Report {
         let c = self.viol_counts.entry(key.clone()).or_insert(0);
         *c += 1;
         if *c <= 2 {
-            self.violations.push(Violation { key, what, replay: replay() });
+            let v = Violation { key, what, replay: replay() };
+            if let Ok(mut g) = GLOBAL_VIOLATIONS.lock() {
+                if g.len() < 64 && !g.iter().any(|x| x.key == v.key) {
+                    g.push(v.clone());
+                }
+            }
+            self.violations.push(v);
         }
     }
     pub fn sample(&mut self, v: impl FnOnce() -> Value) {
@@ -293,6 +303,45 @@ pub fn finish(meta: &CheckMeta, mut rep: Report, t0: Instant) -> i32 {
         out(&format!("VIOLATION property={} replay={}", meta.prop, file));
     }
     1
+}
+
+/// Called by the watchdog when a planner call does not return (or the process balloons): writes
+/// evidence and replay files for what is known and ends the process. `hang` = (key, what, replay)
+/// when the non-returning call is itself a violation of the property being checked.
+pub fn emergency_finish(prop: &str, tier: &str, reason: &str, hang: Option<(String, String, Value)>) -> ! {
+    let known = load_known();
+    let mut vs: Vec<Violation> = GLOBAL_VIOLATIONS.lock().map(|g| g.clone()).unwrap_or_default();
+    if let Some((key, what, replay)) = hang {
+        vs.push(Violation { key, what, replay });
+    }
+    vs.retain(|v| !known.iter().any(|k| k.status == "known" && k.property == prop && key_matches(&k.key, &v.key)));
+    let ev = json!({
+        "property_id": prop, "tier": tier, "seed": seed(), "level": "model_checking",
+        "coverage": {"states": 0, "transitions": 0, "traces_validated_against_impl": 0, "evaluations": 0, "distinct_nontrivial": 0, "distinct_outcomes": 0,
+            "rule": "run ended by the watchdog before the exploration completed", "samples": ["(run ended early)"], "exhaustive": false, "bounds": {}, "counters": {},
+            "known_findings_hit": [], "violation_keys": vs.iter().map(|v| (v.key.clone(), 1)).collect::<BTreeMap<String, u64>>(), "notes": [reason]},
+        "assumptions": [], "wall_s": 0.0, "violations": vs.len(), "engine_errors": if vs.is_empty() { vec![reason.to_string()] } else { vec![] },
+    });
+    let _ = std::fs::create_dir_all(format!("{}/evidence", verif_root()));
+    let _ = std::fs::write(format!("{}/evidence/{prop}.json", verif_root()), serde_json::to_string_pretty(&ev).unwrap());
+    if vs.is_empty() {
+        out(&format!("ENGINE-ERROR: {reason}"));
+        std::process::exit(2);
+    }
+    let dir = format!("{}/replays/{prop}", verif_root());
+    let _ = std::fs::create_dir_all(&dir);
+    out(&format!("{prop} [{tier}] run ended early: {reason}"));
+    for v in &vs {
+        let body = json!({"property": prop, "key": v.key, "what": v.what, "replay": v.replay});
+        let text = serde_json::to_string_pretty(&body).unwrap();
+        let d = h128(&text.bytes().map(|b| b as u64).collect::<Vec<_>>());
+        let file = format!("{dir}/{:016x}.json", (d >> 64) as u64);
+        let _ = std::fs::write(&file, text);
+        out(&format!("  what: {}", v.what));
+        out(&format!("  key: {}", v.key));
+        out(&format!("VIOLATION property={prop} replay={file}"));
+    }
+    std::process::exit(1);
 }
 
 /// A known-finding key matches exactly, or as a prefix when it ends with '*'.
